@@ -38,6 +38,10 @@ impl PanicSig {
     pub fn is_fuel(&self) -> bool {
         self.message.starts_with(digital_test_runner::verif_hooks::FUEL_EXHAUSTED)
     }
+    /// the wall-clock deadline of the verif-hooks feature passed: slowness or a hang, never a verdict
+    pub fn is_deadline(&self) -> bool {
+        self.message.starts_with(digital_test_runner::verif_hooks::DEADLINE_PASSED)
+    }
 }
 
 impl std::fmt::Display for PanicSig {
@@ -442,6 +446,9 @@ pub fn iter_err<E: std::error::Error + 'static>(
 /// fuel for runs that are not guarded by a reference run (about half a second of spinning)
 pub const DEFAULT_FUEL: u64 = 20_000_000;
 
+/// wall-clock limit of one run inside the crate; passing it is a discard, never a verdict
+pub const RUN_DEADLINE_MS: u64 = 1500;
+
 /// fuel for a run whose reference finished in `steps` statement executions
 pub fn fuel_for(steps: usize) -> Option<u64> {
     Some(16 * steps as u64 + 20_000)
@@ -485,6 +492,7 @@ fn take_draws() -> (Vec<crate::ri::DrawEv>, usize) {
 fn run_with<D: HasCore>(tc: &TestCase, mut driver: D, opts: &RunOpts) -> RealRun {
     digital_test_runner::verif_hooks::set_seed_override(opts.seed);
     digital_test_runner::verif_hooks::set_fuel(opts.fuel);
+    digital_test_runner::verif_hooks::set_deadline(Some(std::time::Instant::now() + std::time::Duration::from_millis(RUN_DEADLINE_MS)));
     let _ = digital_test_runner::verif_hooks::take_log();
     let mut run = RealRun {
         ctor: None,
@@ -569,6 +577,7 @@ fn run_with<D: HasCore>(tc: &TestCase, mut driver: D, opts: &RunOpts) -> RealRun
     run.new_runs = n;
     digital_test_runner::verif_hooks::set_seed_override(None);
     digital_test_runner::verif_hooks::set_fuel(None);
+    digital_test_runner::verif_hooks::set_deadline(None);
     run
 }
 
@@ -638,6 +647,7 @@ pub enum StaticRun {
 pub fn run_static(tc: &TestCase, max_next: usize, seed: Option<u64>) -> StaticRun {
     digital_test_runner::verif_hooks::set_seed_override(seed);
     digital_test_runner::verif_hooks::set_fuel(Some(DEFAULT_FUEL));
+    digital_test_runner::verif_hooks::set_deadline(Some(std::time::Instant::now() + std::time::Duration::from_millis(RUN_DEADLINE_MS)));
     let _ = digital_test_runner::verif_hooks::take_log();
     let r = match guarded(|| tc.try_iter_static()) {
         Err(p) => StaticRun::CtorPanic(p),
@@ -685,5 +695,6 @@ pub fn run_static(tc: &TestCase, max_next: usize, seed: Option<u64>) -> StaticRu
     let _ = digital_test_runner::verif_hooks::take_log();
     digital_test_runner::verif_hooks::set_seed_override(None);
     digital_test_runner::verif_hooks::set_fuel(None);
+    digital_test_runner::verif_hooks::set_deadline(None);
     r
 }
